@@ -1,5 +1,5 @@
 ----------------------------- MODULE MC_TzIndex -----------------------------
-(* Bounded design model of C34.  One state per input [z, lo, hi]: a synthetic zone z (TzIndex!WellFormed) *)
+(* Bounded design model of C34.  One state per input [z, lo, hi] (plus seed states): a synthetic zone z (TzIndex!WellFormed) *)
 (* with at most MaxTr transitions at instants of the window lo..hi = -Half..Half (edges included), offsets   *)
 (* -MaxOff..MaxOff except 0 (hours west of UTC; consecutive offsets may be equal = a change of abbreviation only), and the window *)
 (* of instants to probe.  Instant 0 is the UTC midnight that starts day 0, so the window straddles a     *)
@@ -20,12 +20,20 @@ ZonesOf(lo, hi, m) ==
 InputsOf(lo, hi, m) == {[z |-> z, lo |-> lo, hi |-> hi] : z \in ZonesOf(lo, hi, m)}
 Valid == InputsOf(0 - Half, Half, MaxTr) \cup (IF WHalf = 0 THEN {} ELSE InputsOf(0 - WHalf, WHalf, WMaxTr))
 
-ASSUME "OUT_FILE" \in DOMAIN IOEnv => JsonSerialize(IOEnv.OUT_FILE, SetToSeq(Valid))
+\* TLC computes initial states (and their invariants) on one thread: the inputs are therefore reached in
+\* two steps, a seed state per part of the input space first (the parts are explored in parallel).
+Key(in) == <<in.lo, in.z.o[1], IF in.z.u = <<>> THEN 99 ELSE in.z.u[1]>>
+Seeds == {Key(in) : in \in Valid}
+
+ASSUME "OUT_FILE" \in DOMAIN IOEnv
+       => JsonSerialize(IOEnv.OUT_FILE, [seeds |-> Cardinality(Seeds), inputs |-> SetToSeq(Valid)])
 
 VARIABLE input
-Init == input \in Valid
-Next == UNCHANGED input
-SpecSane == Ok(input, Ref(input))
+IsSeed == "seed" \in DOMAIN input
+Init == input \in {[seed |-> s] : s \in Seeds}
+Next == /\ IsSeed
+        /\ input' \in {in \in Valid : Key(in) = input.seed}
+SpecSane == IsSeed \/ Ok(input, Ref(input))
 \* the class is closed under what the definitions assume: a skipped local time lies in some gap
-GapSane == \A l \in Locals(input) : Interp(input.z, l) = {} => GapsAt(input.z, l) # {}
+GapSane == IsSeed \/ \A l \in Locals(input) : Interp(input.z, l) = {} => GapsAt(input.z, l) # {}
 =============================================================================
